@@ -130,13 +130,15 @@ type FuncCtx struct {
 	havocSources  []Term
 	inlineStack   []string // repository functions without a contract being executed in place
 	notes         []string
-	inNonBlocking bool // executing the communication of a select that has a default clause
+	inNonBlocking bool        // executing the communication of a select that has a default clause
+	loopFrames    []loopFrame // contracted loops whose body is being executed (for the leave clauses)
+	leaveSeen     map[*Clause]bool // leave clause -> evaluated at some return
 	loopUsed      map[*LoopContract]bool
 	codeSigs      map[string]int // loop headers that occur in the function's source
 	loopSigs      map[int]string // contract ordinal -> header of the loop it was applied to (for govc -gen-names)
 	autoLoops     int
 	defs          map[string]string // named terms of this function (name -> definition)
-	pendingAlias  []pendingAlias // set by the last call whose contract has `aliases` clauses; consumed by the assignment
+	pendingAlias  []pendingAlias    // set by the last call whose contract has `aliases` clauses; consumed by the assignment
 	renamed       map[*types.Var]bool
 	rangeAlias    map[string]*types.Var // range_i / range_iN -> counting variable of a for loop
 	nameAlias     map[string]*types.Var // contract name -> variable, for variables renamed since the contract was written
@@ -565,4 +567,12 @@ func (fc *FuncCtx) mergeFieldwise(g string, b, a Term) (Term, bool) {
 		return Term{}, false
 	}
 	return Term{S: "(" + si.Ctor + " " + strings.Join(fs, " ") + ")", T: a.T}, true
+}
+
+// loopFrame: a loop under contract whose body is being executed.
+type loopFrame struct {
+	lc             *LoopContract
+	ord            int
+	pre, bodyStart *State
+	at             token.Pos
 }
